@@ -255,11 +255,12 @@ impl Display {
         self.thorough || full_year(y) || year_edge || ordinal % 97 == 0
     }
     fn extra_days(&self, y: i32, m: u32, d: u32) -> bool {
-        let edge = d == 1 || d == month_len(y, m) || (m == 2 && d >= 28);
+        let month_edge = d == 1 || d == month_len(y, m) || (m == 2 && d >= 28);
+        let year_edge = (m == 1 && d == 1) || (m == 2 && d >= 28) || (m == 3 && d == 1) || (m == 12 && d == 31);
         if self.thorough {
-            edge || boundary_year(y)
+            year_edge || (month_edge && (boundary_year(y) || y % 10 == 0)) || full_year(y)
         } else {
-            edge && (full_year(y) || y % 400 == 0 || y % 1000 == 999)
+            month_edge && (full_year(y) || y % 400 == 0 || y % 1000 == 999)
         }
     }
 }
@@ -327,7 +328,8 @@ impl Space for Display {
             // thorough: every second; quick: every second of the first and last minute of the hour + every 61st second
             for secs in hour * 3600..(hour + 1) * 3600 {
                 let k = secs % 3600;
-                if self.thorough || k < 2 || k >= 3598 || k % 601 == 0 {
+                let full_day = self.thorough && [(1900, 1, 1), (2000, 2, 29), (9999, 12, 31)].contains(&(y, m, d));
+                if full_day || k < 2 || k >= 3598 || k % if self.thorough { 7 } else { 601 } == 0 {
                     check_display(sink, y, m, d, secs, MAIN_FMT);
                 }
             }
@@ -382,8 +384,8 @@ fn run(ctx: &Ctx) -> i32 {
             alphabets: json!({"days": total_days, "times_of_day_s": TIMES, "every_second_days": SECOND_DAYS.iter().map(|(y,m,d)| format!("{:04}-{:02}-{:02}", y, m, d)).collect::<Vec<_>>(), "main_format": MAIN_FMT, "extra_formats": EXTRA_FMTS}),
             bounds: json!({
                 "conversion": "all days x 5 times + 8 x 86400 seconds (both tiers)",
-                "display_main_format": if thorough {"every day (time of day rotating through the 5 times with the day number) + every second of the 8 representative days"} else {"every day of the years 1900,1901,1904,1999,2000,2024,2100,9999; Jan 1, Feb 28/29, Mar 1, Dec 31 of every year; every 97th day; time rotating through the 5 times; representative days: first/last 2 seconds of each hour + every 601st second (one formatting call costs ~1 ms)"},
-                "display_extra_formats": if thorough {"first/last day of every month and Feb 28/29 of every year, every day of boundary years (<=1904, >=9996, yy in {00,99}, 1996..2004, 2023..2025)"} else {"first/last day of every month and Feb 28/29 of the 8 full years, every 400th year and years ..999"}, "display_entry_points": "Worksheet::get_formatted_value always; Cell::get_formatted_value and to_formatted_string compared on every 16th evaluation"
+                "display_main_format": if thorough {"every day (time of day rotating through the 5 times with the day number) + every second of 1900-01-01, 2000-02-29, 9999-12-31 and every 7th second (+ first/last 2 of each hour) of the other 5 representative days"} else {"every day of the years 1900,1901,1904,1999,2000,2024,2100,9999; Jan 1, Feb 28/29, Mar 1, Dec 31 of every year; every 97th day; time rotating through the 5 times; representative days: first/last 2 seconds of each hour + every 601st second (one formatting call costs ~1 ms)"},
+                "display_extra_formats": if thorough {"Jan 1, Feb 28/29, Mar 1, Dec 31 of every year; first/last day of every month of boundary years (<=1904, >=9996, yy in {00,99}, 1996..2004, 2023..2025) and every 10th year; every day of the 8 full years"} else {"first/last day of every month and Feb 28/29 of the 8 full years, every 400th year and years ..999"}, "display_entry_points": "Worksheet::get_formatted_value always; Cell::get_formatted_value and to_formatted_string compared on every 16th evaluation"
             }),
             exhaustive: true,
             caps_hit: vec![],
